@@ -412,6 +412,27 @@ func sigVariants() []sigVariant {
 			return sig.Bytes(), err
 		}
 	}, expect: "ok"})
+	// a callback that answers with a binary (not armored) signature whose last byte happens to be a blank, a tab or a line
+	// break (one signature in forty ends so; here the signing time is moved until one does): it is the signature, to the byte
+	vs = append(vs, sigVariant{name: "debsign-callback-binary-ending-in-a-blank", format: "deb", tweak: func(info *nfpm.Info, rec *cbRecord) {
+		info.Deb.Signature.SignFn = func(r io.Reader) ([]byte, error) {
+			data, _ := io.ReadAll(r)
+			rec.calls = append(rec.calls, data)
+			var last []byte
+			for i := 0; i < 4000; i++ {
+				var sig bytes.Buffer
+				at := time.Unix(1700000000+int64(i), 0)
+				if err := openpgp.DetachSign(&sig, ent(), bytes.NewReader(data), &packet.Config{Time: func() time.Time { return at }}); err != nil {
+					return nil, err
+				}
+				last = sig.Bytes()
+				if strings.IndexByte("\t\n\v\f\r ", last[len(last)-1]) >= 0 {
+					break
+				}
+			}
+			return last, nil
+		}
+	}, expect: "ok"})
 	vs = append(vs, sigVariant{name: "dpkgsig-callback", format: "deb", tweak: func(info *nfpm.Info, rec *cbRecord) {
 		info.Deb.Signature.Method = "dpkg-sig"
 		info.Deb.Signature.SignFn = func(r io.Reader) ([]byte, error) {
@@ -833,7 +854,12 @@ func runC10Case(w *caseWriter, id string, d sigDesc, variants map[string]sigVari
 				}
 				w.line("srole %s", xs(role))
 			} else {
-				_, e := openpgp.CheckArmoredDetachedSignature(ring, bytes.NewReader(signed), bytes.NewReader(sig), nil)
+				var e error
+				if bytes.HasPrefix(bytes.TrimSpace(sig), []byte("-----BEGIN")) {
+					_, e = openpgp.CheckArmoredDetachedSignature(ring, bytes.NewReader(signed), bytes.NewReader(sig), nil)
+				} else {
+					_, e = openpgp.CheckDetachedSignature(ring, bytes.NewReader(signed), bytes.NewReader(sig), nil)
+				}
 				w.line("sverify %s %d %s", xs(n), b2i(e == nil), gpgVerify(sig, signed))
 			}
 			st.verified++
@@ -928,6 +954,9 @@ func cmdC10(tier string, seed int64, out, statsOut, replay string) {
 		variants[v.name] = v
 		order = append(order, v)
 	}
+	// hand-written documents that configure the signing themselves (nothing is changed after parsing)
+	variants["as-the-document-says"] = sigVariant{name: "as-the-document-says", format: "deb", tweak: func(*nfpm.Info, *cbRecord) {}, expect: "ok"}
+	variants["as-the-document-says-invalid"] = sigVariant{name: "as-the-document-says-invalid", format: "deb", tweak: func(*nfpm.Info, *cbRecord) {}, expect: "signing-error"}
 	if replay != "" {
 		readDescs(replay, func(id string, raw json.RawMessage) {
 			var d sigDesc
@@ -937,6 +966,20 @@ func cmdC10(tier string, seed int64, out, statsOut, replay string) {
 		w.close()
 		writeJSON(statsOut, map[string]any{"cases": st.cases})
 		return
+	}
+	// the signature type at the top and another one in the deb block of the deb override block: the override's counts
+	for mi, method := range []string{"debsign", "dpkg-sig"} {
+		for ti, typ := range []string{"archive", "origin", "release-manager"} {
+			doc := "name: sigdoc\narch: amd64\nversion: 1.0.0\nmaintainer: M <m@example.com>\ndeb:\n  signature:\n    key_file: " + testdata("privkey_unprotected.asc") +
+				"\n    method: " + method + "\n    type: maint\noverrides:\n  deb:\n    deb:\n      signature:\n        type: " + typ + "\n"
+			vn := "as-the-document-says"
+			if typ == "release-manager" && method == "dpkg-sig" {
+				doc = strings.Replace(doc, "type: release-manager", "type: relmgr", 1) // dpkg-sig: the type is a free role name
+			} else if typ == "release-manager" {
+				vn = "as-the-document-says-invalid"
+			}
+			runC10Case(w, fmt.Sprintf("sigdoc-%d-%d", mi, ti), sigDesc{YAML: doc, Format: "deb", Variant: vn}, variants, st)
+		}
 	}
 	g := &pkgGen{rng: rand.New(rand.NewSource(seed))}
 	n := 2
